@@ -23,7 +23,9 @@ macro_rules! props {
 props! {
     "C01" => c01,
     "C02" => c02,
+    "C03" => c03,
     "C04" => c04,
+    "C06" => c06,
     "C11" => c11,
     "C13" => c13,
     "C14" => c14,
